@@ -8,10 +8,10 @@ def atom_txt(a):
     return '%s%s%s@%s' % ('' if pos else '-', name, '(%s)' % ','.join(args) if args else '', t)
 
 
-def answer_sets(ctx, inputs, H, hide=(), timeout=40, atoms=False, keep_aux=False, args=None):
+def answer_sets(ctx, inputs, H, hide=(), timeout=40, atoms=False, keep_aux=False, args=None, limit=None):
     """inputs: list of lists of texts (several files per program).  Returns per input either
     {'ok': {h: sorted list of tuples of atom strings}} or {'error': {...}}."""
-    reqs = [dict({'cmd': 'solve', 'texts': t, 'imax': H + 1, 'istop': 'UNKNOWN', 'atoms': atoms}, **({'args': args} if args else {})) for t in inputs]
+    reqs = [dict({'cmd': 'solve', 'texts': t, 'imax': H + 1, 'istop': 'UNKNOWN', 'atoms': atoms}, **({'args': args} if args else {}), **({'limit': limit} if limit else {})) for t in inputs]
     out = []
     for ans in ctx.impl().run(reqs, timeout=timeout):
         if ans.get('status') != 'ok':
